@@ -92,12 +92,12 @@ mutual
 def denote : Expr → Except String (Iterable Val)
   | .array vs => .ok (arrayI (vs.map Val.int))
   | .list vs => .ok (listI (vs.map Val.int))
-  | .tuple ids => .ok (mapI (tupleI ids) (fun i => Val.int i))
+  | .tuple ids => .ok (embI (tupleI ids) (fun i => Val.int i))
   | .table slots => .ok (tableI (slots.map (fun o => o.map Val.int)))
-  | .tree t => .ok (mapI (treeI t) Val.int)
-  | .rtree ks => .ok (mapI (treeI (ks.foldl T.insert .nil)) Val.int)
+  | .tree t => .ok (embI (treeI t) Val.int)
+  | .rtree ks => .ok (embI (treeI (ks.foldl T.insert .nil)) Val.int)
   | .range args => match rangeStack args with
-    | some (a, b, c) => .ok (mapI (rangeI a b c) Val.int)
+    | some (a, b, c) => .ok (embI (rangeI a b c) Val.int)
     | none => .error "range-args"
   | .slice e args => match denote e with
     | .ok I => match I.len with
@@ -107,11 +107,11 @@ def denote : Expr → Except String (Iterable Val)
       | none => .error "no-len"
     | .error m => .error m
   | .zip es => match denoteList es with
-    | .ok Is => .ok (mapI (zipI Is) Val.tup)
+    | .ok Is => .ok (embI (zipI Is) Val.tup)
     | .error m => .error m
   | .enum e => match denote e with
     | .ok I => match I.len with
-      | some n => .ok (mapI (enumI I n Val.int) Val.tup)
+      | some n => .ok (embI (enumI I n Val.int) Val.tup)
       | none => .error "no-len"
     | .error m => .error m
   | .filter e m r => match denote e with
@@ -121,15 +121,15 @@ def denote : Expr → Except String (Iterable Val)
     | .ok I => .ok (mapI I (testFun a b))
     | .error m => .error m
   | .mlist init ops => match mlistOf init ops with
-    | some l => .ok (mapI (llI l) Val.int)
+    | some l => .ok (embI (llI l) Val.int)
     | none => .error "mut-undef"
   | .marray init ops => match marrayOf init ops with
-    | some a => .ok (mapI (arI a) Val.int)
+    | some a => .ok (embI (arI a) Val.int)
     | none => .error "mut-undef"
   | .mtable init ops => match mtableOf init ops with
-    | some t => .ok (mapI (tabI t) Val.int)
+    | some t => .ok (embI (tabI t) Val.int)
     | none => .error "mut-undef"
-  | .mtree init ops => .ok (mapI (rbI (mtreeOf init ops)) Val.int)
+  | .mtree init ops => .ok (embI (rbI (mtreeOf init ops)) Val.int)
 def denoteList : List Expr → Except String (List (Iterable Val))
   | [] => .ok []
   | e :: es => match denote e, denoteList es with
